@@ -18,6 +18,7 @@ def net_call_funcs : List String := ["dialUDP", "exchange"]
 def shape_cacheable_reads_ledger_at_decision : Bool := true
 def shape_cached_descent_spends_depth : Bool := true
 def shape_chase_checks_deadline : Bool := true
+def shape_chase_state_outside_loop : Bool := true
 def shape_checkhosts_uses_request_context : Bool := true
 def shape_checkloop_before_ns_lookup : Bool := true
 def shape_delegation_spends_depth : Bool := true
